@@ -133,14 +133,24 @@ def extendMatchPtrT (P : TwinParams) (mem : List Nat) (p1 n1 p2 n2 : Nat) : Nat 
 def absReads (p1 p2 : Nat) (rs : List (Nat × Nat)) : List Nat :=
   rs.flatMap fun r => (List.range r.2).map (p1 + r.1 + ·) ++ (List.range r.2).map (p2 + r.1 + ·)
 
+/-- `(limit - current_len) as usize` for non-negative `i32` arguments: the `i32` difference cannot
+    overflow, a negative one sign-extends to `2^64 - (current_len - limit)`.  (Found by running
+    `get_match_len_fast_reject`, which calls `extend_match` with `current_len = 2`, with length limits
+    0 and 1 against the real code: the optimized twin then extends up to the physical end of the buffer.) -/
+def extLogical (limit curLen : Nat) : Nat :=
+  if curLen ≤ limit then limit - curLen else 2 ^ 64 - (curLen - limit)
+
 /-- `extend_match`, portable: `&buf[start1..start1 + ext]` panics when out of range (`none`).
     `i32` arguments are taken as naturals: the callers pass `0 ≤ current_len ≤ limit`,
-    `1 ≤ distance ≤ read_pos + current_len`. -/
+    `1 ≤ distance ≤ read_pos + current_len` (`start1 - distance` underflows otherwise: a panic with
+    overflow checks, a wild `get_unchecked` without — NOT modelled, `Nat` subtraction truncates).
+    With `limit < current_len` the extension is `2^64 - …`: `start1 + ext` overflows or is out of range,
+    in both cases a panic. -/
 def extendMatchPortable (P : TwinParams) (buf : List Nat) (readPos curLen dist limit : Nat) :
     Option Nat :=
   let start1 := readPos + curLen
   let start2 := start1 - dist
-  let ext := limit - curLen
+  let ext := extLogical limit curLen
   if start1 + ext ≤ buf.length then
     some (curLen + extendMatchSafe P (slice buf start1 ext) (slice buf start2 ext))
   else none
@@ -151,7 +161,7 @@ def extendMatchOptT (P : TwinParams) (buf : List Nat) (readPos curLen dist limit
     Nat × List Nat :=
   let start1 := readPos + curLen
   let start2 := start1 - dist
-  let ext := min (limit - curLen) (buf.length - start1)
+  let ext := min (extLogical limit curLen) (buf.length - start1)
   let r := extendMatchPtrT P buf start1 ext start2 ext
   (curLen + r.1, absReads start1 start2 r.2)
 
@@ -181,6 +191,29 @@ def fastRejectOptWith (P : TwinParams) (lim : Nat) (buf : List Nat) (readPos mat
 /-- optimized, as in the source (`lim = buf_limit_u16`) -/
 def fastRejectOpt (P : TwinParams) (buf : List Nat) (readPos matchDist : Nat) : Bool × List Nat :=
   fastRejectOptWith P (bufLimitU16 P buf.length) buf readPos matchDist
+
+/-- `LZEncoderData::get_match_len_fast_reject(dist, len_limit)`, `cfg(feature = "optimization")`:
+    `match_dist = dist + 1`; `return 0` when the clamped u16 reads differ, otherwise
+    `extend_match(&self.buf, self.read_pos, 2, match_dist, len_limit)` (its optimized twin).
+    Value and absolute indices read.  (`dist ≥ 0`, `dist + 1 ≤ read_pos`: the callers pass a rep
+    distance that lies inside the window; outside that range `read_pos - match_dist` underflows —
+    a panic with overflow checks, a wrapped and then clamped index without.) -/
+def matchLenFastRejectOptT (P : TwinParams) (buf : List Nat) (readPos dist lenLimit : Nat) :
+    Nat × List Nat :=
+  let r := fastRejectOpt P buf readPos (dist + 1)
+  if r.1 then (0, r.2)
+  else
+    let e := extendMatchOptT P buf readPos 2 (dist + 1) lenLimit
+    (e.1, r.2 ++ e.2)
+
+/-- the same function, `cfg(not(feature = "optimization"))`: four indexed byte loads, then the
+    portable `extend_match`; `none` = index / slice panic -/
+def matchLenFastRejectPortable (P : TwinParams) (buf : List Nat) (readPos dist lenLimit : Nat) :
+    Option Nat :=
+  match fastRejectPortable buf readPos (dist + 1) with
+  | none => none
+  | some true => some 0
+  | some false => extendMatchPortable P buf readPos 2 (dist + 1) lenLimit
 
 /-! ## T3  position renormalisation (`i32` as `Int` with explicit wrap) -/
 
@@ -308,6 +341,13 @@ def directX86 (P : TwinParams) (buf : List Nat) (count : Nat) (s : DState) : DSt
 /-- aarch64 assembly -/
 def directA64 (P : TwinParams) (buf : List Nat) (count : Nat) (s : DState) : DState :=
   directLoop P (rdAsm P buf) halveA64 count s
+
+/-- `decode_direct_bits` as the default x86-64 build (`optimization` on) dispatches it for the buffer
+    reader: `if self.inner.is_buffer() && count > 0 && pos + count <= buf.len()` the assembly, else the
+    portable loop -/
+def directBitsOpt (P : TwinParams) (buf : List Nat) (count : Nat) (s : DState) : DState :=
+  if 0 < count ∧ s.pos + count ≤ buf.length then directX86 P buf count s
+  else directPortable P buf (directFuel count) count s
 
 /-- indices loaded by an assembly run (same for both architectures when the `range` sequences agree,
     which they always do) -/
